@@ -122,6 +122,19 @@ ColonHex(tag, bytes, on) == [TX("colon") EXCEPT !.a = tag, !.w = "hex", !.d = by
 ColonText(tag, utf8) == [TX("colon") EXCEPT !.a = tag, !.w = "nothex", !.d2 = utf8, !.w2 = "utf8"]
 ColonBad(tag) == [TX("colon") EXCEPT !.a = tag, !.w = "nothex", !.w2 = "noutf8"]
 Zz == <<122, 122>>       \* "zz": not hex
+\* rests that contain the separator themselves (the tag ends at the FIRST ':'): any text is a pass phrase - the key of the
+\* WHOLE rest, with the ':' leading, trailing, alone, repeated, between hex digits -, while hex followed / preceded by ':'
+\* is no hex: the hex forms refuse it whatever stands before the second ':' (a seed, an electrum seed / private / public key)
+Cl == <<58>>
+Ab == <<97, 98>>
+ColonInRest ==
+  { ColonText(TagP, <<97>> \o Cl \o <<98>>), ColonText(TagP, Cl), ColonText(TagP, Ab \o Cl), ColonText(TagP, Cl \o Ab),
+    ColonText(TagP, <<97>> \o Cl \o <<98>> \o Cl \o <<99>>), ColonText(TagP, HexAscii(H(4)) \o Cl \o HexAscii(H(4))),
+    ColonText(TagH, HexAscii(H(16)) \o Cl \o HexAscii(<<0>>)), ColonText(TagH, HexAscii(H(16)) \o Cl), ColonText(TagH, Cl \o HexAscii(H(16))),
+    ColonText(TagE, HexAscii(H(16)) \o Cl \o Zz), ColonText(TagE, HexAscii(H(16)) \o Cl \o HexAscii(H(16))),
+    ColonText(TagE, HexAscii(One32) \o Cl \o <<49>>), ColonText(TagE, HexAscii(Gx \o Gy) \o Cl),
+    ColonText(<<88>>, <<97>> \o Cl \o <<98>>) }
+IsHexAscii(s) == Len(s) % 2 = 0 /\ \A i \in DOMAIN s : s[i] \in (48..57) \cup (97..102)
 ColonGrid ==
   { ColonHex(TagH, H(16), FALSE), ColonHex(TagH, <<>>, FALSE), ColonText(TagH, Zz), ColonBad(TagH),
     ColonText(TagP, <<97, 98, 99>>), ColonHex(TagP, H(4), FALSE), ColonHex(TagP, <<>>, FALSE), ColonBad(TagP),
@@ -130,6 +143,7 @@ ColonGrid ==
     ColonHex(TagE, Gx \o Gy, TRUE), ColonHex(TagE, Gx \o GyBad, FALSE), ColonHex(TagE, PPlus1 \o Gy, FALSE),
     ColonHex(<<88>>, H(16), FALSE), ColonText(<<88>>, Zz),
     ColonText(<<>>, <<97, 98, 99>>), ColonHex(<<72, 80>>, H(16), FALSE) }
+  \cup ColonInRest
 
 \* ---- numerals --------------------------------------------------------------------------------
 RECURSIVE DecDigits(_)
@@ -177,7 +191,8 @@ MayNone(N, T) == {Entries[i] : i \in {j \in DOMAIN Entries : ONone \in Out(N, En
 Objects(N, T) == UNION {{o \in Out(N, Entries[i], T) : o.r = "obj"} : i \in DOMAIN Entries}
 \* objects without a Reser here (seeds, electrum): who must give them back from the text of their own API
 ReparseOf(N, T) == {[o |-> XO(o), by |-> ReparseBy(o)] : o \in {x \in Objects(N, T) : ~HasReser(N, x) /\ ~N.stub /\ x.k \in {"seed32", "electrum"}}}
-ReserOf(N, T) == {[o |-> XO(o), t |-> XT(Reser(N, o)), by |-> ReparseBy(o)] : o \in {x \in Objects(N, T) : HasReser(N, x)}}
+ReserOf(N, T) == {[o |-> XO(o), t |-> XT(Reser(N, o)), by |-> ReparseBy(o), via |-> Via(o), printers |-> Printers, half |-> PublicHalf(N, o)] :
+                    o \in {x \in Objects(N, T) : HasReser(N, x)}}
 
 \* ---- a class label for a text on a network (the signature findings are keyed by) -------------------------
 Starts(N, T) == {k.name : k \in {x \in CKinds(N) : StartsWith(T.d, x.pfx)}}
@@ -224,6 +239,7 @@ GridOk == done = "case" =>
    /\ (T.f = "b58c" => PayKnown(T.d))
    /\ (T.f = "num" /\ T.w = "hex" => HasLetter(T.d2) /\ (NeedsOracle(T.d2) => SecKnown(T.d2)))
    /\ (T.f = "hexsec" /\ T.w = "hex" /\ NeedsOracle(T.d) => SecKnown(T.d))
+   /\ (T.f = "colon" /\ T.w = "nothex" /\ T.w2 = "utf8" => ~IsHexAscii(T.d2))
 \* every object the rules return re-serialises to a text that the rules parse back to it
 FaithfulOk == done = "case" => \A o \in Objects(Nets[cur.n], cur.t) : Faithful(Nets[cur.n], o)
 \* on a table whose kinds are apart, no text is answered by two checksummed kinds
